@@ -36,7 +36,29 @@ Format::QuoteUrlEncodeUsername(const char *name)
     if (name[0] == '\0')
         return nullptr;
 
-    return QuoteMimeBlob(name);
+    // QuoteMimeBlob() deliberately leaves SP as is (readable header blobs
+    // inside brackets), but a user name is logged as a bare, space-delimited
+    // field: encode its spaces so that the name cannot split the record.
+    char *blob = QuoteMimeBlob(name);
+    size_t spaces = 0;
+    for (const char *p = blob; *p; ++p)
+        spaces += (*p == ' ');
+    if (!spaces)
+        return blob;
+
+    char *buf = static_cast<char *>(xcalloc(1, strlen(blob) + 2 * spaces + 1));
+    char *out = buf;
+    for (const char *p = blob; *p; ++p) {
+        if (*p == ' ') {
+            *out++ = '%';
+            *out++ = '2';
+            *out++ = '0';
+        } else
+            *out++ = *p;
+    }
+    *out = '\0';
+    xfree(blob);
+    return buf;
 }
 
 char *
